@@ -55,30 +55,32 @@ theorem dateIn_yday {x : Inst} (hx : DateIn x) : 1 ≤ ydayOf x ∧ ydayOf x ≤
   omega
 
 /-- the selection `fill_yly_yd` makes for one BYYEARDAY value -/
-def ydSel (y wdMask : Nat) (yd0 : Int) : Option Nat :=
-  if wdMask >>> 1 ≠ 0 ∧ !bit wdMask (ydGetWday y (toU32 (if yd0 < 0 then yd0 + 366 + (leapN y : Int) else yd0))) then none
-  else if (if yd0 < 0 then yd0 + 366 + (leapN y : Int) else yd0) > 365 + (leapN y : Int) then none
+def ydSel (dow : List Int) (y wdMask : Nat) (mp : Bool) (yd0 : Int) : Option Nat :=
+  if (if yd0 < 0 then yd0 + 366 + (leapN y : Int) else yd0) > 365 + (leapN y : Int) then none
   else if (ydToMd y (if yd0 < 0 then yd0 + 366 + (leapN y : Int) else yd0)).m = 0 then none
+  else if wdMask ≠ 0 ∧ !dowLimitP dow wdMask y (ydToMd y (if yd0 < 0 then yd0 + 366 + (leapN y : Int) else yd0)).m
+      (ydToMd y (if yd0 < 0 then yd0 + 366 + (leapN y : Int) else yd0)).d
+      (ydGetWday y (toU32 (if yd0 < 0 then yd0 + 366 + (leapN y : Int) else yd0))) mp then none
   else some (packCand (ydToMd y (if yd0 < 0 then yd0 + 366 + (leapN y : Int) else yd0)).m
     (ydToMd y (if yd0 < 0 then yd0 + 366 + (leapN y : Int) else yd0)).d)
 
-theorem fillYlyYd_eq (cand : List Nat) (y : Nat) (doy : List Int) (wdMask : Nat) :
-    fillYlyYd cand y doy wdMask = doy.foldl (fun cand a => assO cand (ydSel y wdMask a)) cand := by
+theorem fillYlyYd_eq (cand : List Nat) (y : Nat) (doy : List Int) (dow : List Int) (wdMask : Nat) (mp : Bool) :
+    fillYlyYd cand y doy dow wdMask mp = doy.foldl (fun cand a => assO cand (ydSel dow y wdMask mp a)) cand := by
   unfold fillYlyYd
   congr 1
   funext cand yd0
   unfold ydSel
   dsimp only
   generalize (if yd0 < 0 then yd0 + 366 + (leapN y : Int) else yd0) = yd
-  by_cases c1 : wdMask >>> 1 ≠ 0 ∧ (!bit wdMask (ydGetWday y (toU32 yd))) = true
-  · rw [if_pos c1, if_pos c1]; rfl
-  rw [if_neg c1, if_neg c1]
   by_cases c2 : yd > 365 + (leapN y : Int)
   · rw [if_pos c2, if_pos c2]; rfl
   rw [if_neg c2, if_neg c2]
   by_cases c3 : (ydToMd y yd).m = 0
   · rw [if_pos c3, if_pos c3]; rfl
-  rw [if_neg c3, if_neg c3]; rfl
+  rw [if_neg c3, if_neg c3]
+  by_cases c1 : wdMask ≠ 0 ∧ (!dowLimitP dow wdMask y (ydToMd y yd).m (ydToMd y yd).d (ydGetWday y (toU32 yd)) mp) = true
+  · rw [if_pos c1, if_pos c1]; rfl
+  rw [if_neg c1, if_neg c1]; rfl
 
 theorem ydToMd_zero (y : Nat) (h : y % 4 ≠ 0) : (ydToMd y 0).m = 0 := by
   rw [ydToMd_class, if_neg h]; decide
@@ -99,11 +101,11 @@ theorem ydGetWday_eq (y : Nat) (yd : Nat) (h : 1 ≤ yd ∧ yd ≤ 366) :
 def YdaySel (doy : List Int) (x : Inst) : Prop :=
   ∃ n ∈ doy, (0 < n ∧ n = ydayOf x) ∨ (n < 0 ∧ (yearLen x.y : Int) + 1 + n = ydayOf x)
 
-/-- BYYEARDAY with a weekday limit (`fill_yly_yd`) for a date -/
-theorem mem_yly_yd_date (cand : List Nat) (doy : List Int) (wdMask : Nat) (x : Inst) (hx : DateIn x)
-    (hdoy : ∀ n ∈ doy, n ≠ 0 ∧ -366 ≤ n ∧ n ≤ 366) :
-    packCand x.m x.d ∈ fillYlyYd cand x.y doy wdMask ↔ packCand x.m x.d ∈ cand ∨
-      (YdaySel doy x ∧ (wdMask >>> 1 = 0 ∨ bit wdMask (wdayOf (dayOf x)) = true)) := by
+/-- BYYEARDAY with the BYDAY limit (`fill_yly_yd`) for a date -/
+theorem mem_yly_yd_date (cand : List Nat) (doy : List Int) (dow : List Int) (wdMask : Nat) (mp : Bool) (x : Inst)
+    (hx : DateIn x) (hdoy : ∀ n ∈ doy, n ≠ 0 ∧ -366 ≤ n ∧ n ≤ 366) :
+    packCand x.m x.d ∈ fillYlyYd cand x.y doy dow wdMask mp ↔ packCand x.m x.d ∈ cand ∨
+      (YdaySel doy x ∧ DLimB dow wdMask x.y x.m x.d (wdayOf (dayOf x)) mp) := by
   have hv := hx.v
   have h31 := hv.d31
   have hm1 := hv.1
@@ -115,7 +117,8 @@ theorem mem_yly_yd_date (cand : List Nat) (doy : List Int) (wdMask : Nat) (x : I
   -- what a value between 1 and the year's length selects
   have key : ∀ yd : Int, 1 ≤ yd → yd ≤ 365 + (leapN x.y : Int) →
       ((ydToMd x.y yd).m ≠ 0 ∧ (packCand x.m x.d = packCand (ydToMd x.y yd).m (ydToMd x.y yd).d ↔ yd = ydayOf x) ∧
-        (yd = ydayOf x → ydGetWday x.y (toU32 yd) = wdayOf (dayOf x))) := by
+        (yd = ydayOf x → ydGetWday x.y (toU32 yd) = wdayOf (dayOf x)) ∧
+        (yd = ydayOf x → (ydToMd x.y yd).m = x.m ∧ (ydToMd x.y yd).d = x.d)) := by
     intro yd y1 y2
     have e : yd = ((yd.toNat : Nat) : Int) := by omega
     have hu : toU32 yd = yd.toNat := by unfold toU32 u32; omega
@@ -125,16 +128,19 @@ theorem mem_yly_yd_date (cand : List Nat) (doy : List Int) (wdMask : Nat) (x : I
     rw [← e] at sp
     obtain ⟨s1, s2, s3, s4, s5⟩ := sp
     have hvd : VDs x.y (ydToMd x.y yd).m (ydToMd x.y yd).d := ⟨s1, s2, s3, s4⟩
-    refine ⟨by omega, ?_, ?_⟩
+    have hinj : yd = ydayOf x → (ydToMd x.y yd).m = x.m ∧ (ydToMd x.y yd).d = x.d := by
+      intro he
+      have : days x.y (ydToMd x.y yd).m (ydToMd x.y yd).d = days x.y x.m x.d := by
+        rw [s5, he]; unfold ydayOf Echse.Spec.Rfc.dayOf; omega
+      exact vds_days_inj hvd hv this
+    refine ⟨by omega, ?_, ?_, hinj⟩
     · constructor
       · intro he
         obtain ⟨e1, e2⟩ := packCand_inj ⟨hm1, hm2⟩ h31 ⟨s1, s2⟩ hvd.d31 he
         rw [← e1, ← e2] at s5
         unfold ydayOf Echse.Spec.Rfc.dayOf; omega
       · intro he
-        have : days x.y (ydToMd x.y yd).m (ydToMd x.y yd).d = days x.y x.m x.d := by
-          rw [s5, he]; unfold ydayOf Echse.Spec.Rfc.dayOf; omega
-        obtain ⟨e1, e2⟩ := vds_days_inj hvd hv this
+        obtain ⟨e1, e2⟩ := hinj he
         rw [e1, e2]
     · intro he
       rw [hu, ydGetWday_eq x.y yd.toNat (by omega),
@@ -149,15 +155,16 @@ theorem mem_yly_yd_date (cand : List Nat) (doy : List Int) (wdMask : Nat) (x : I
     have hnr := hdoy n hn
     unfold ydSel at hs
     generalize hyd' : (if n < 0 then n + 366 + (leapN x.y : Int) else n) = yd at hs
-    by_cases c1 : wdMask >>> 1 ≠ 0 ∧ (!bit wdMask (ydGetWday x.y (toU32 yd))) = true
-    · rw [if_pos c1] at hs; cases hs
-    rw [if_neg c1] at hs
     by_cases c2 : yd > 365 + (leapN x.y : Int)
     · rw [if_pos c2] at hs; cases hs
     rw [if_neg c2] at hs
     by_cases c3 : (ydToMd x.y yd).m = 0
     · rw [if_pos c3] at hs; cases hs
     rw [if_neg c3] at hs
+    by_cases c1 : wdMask ≠ 0 ∧ (!dowLimitP dow wdMask x.y (ydToMd x.y yd).m (ydToMd x.y yd).d
+        (ydGetWday x.y (toU32 yd)) mp) = true
+    · rw [if_pos c1] at hs; cases hs
+    rw [if_neg c1] at hs
     injection hs with hs
     have y0 : 0 ≤ yd := by split at hyd' <;> omega
     have y1 : 1 ≤ yd := by
@@ -167,19 +174,15 @@ theorem mem_yly_yd_date (cand : List Nat) (doy : List Int) (wdMask : Nat) (x : I
           intro hl; unfold leapN at hyd'; rw [if_pos hl] at hyd'; split at hyd' <;> omega
         rw [e0, ydToMd_zero x.y hl] at c3; exact c3 rfl
       · omega
-    obtain ⟨_, k2, k3⟩ := key yd y1 (by omega)
+    obtain ⟨_, k2, k3, k4⟩ := key yd y1 (by omega)
     have he := k2.1 hs.symm
     refine ⟨⟨n, hn, ?_⟩, ?_⟩
     · split at hyd'
       · right; exact ⟨by omega, by omega⟩
       · left; exact ⟨by omega, by omega⟩
-    · by_cases c : wdMask >>> 1 = 0
-      · exact Or.inl c
-      · right
-        rw [← k3 he]
-        cases hb : bit wdMask (ydGetWday x.y (toU32 yd)) with
-        | true => rfl
-        | false => exact absurd ⟨c, by rw [hb]; rfl⟩ c1
+    · have := (dlimB_neg _ _ _ _ _ _ _).1 c1
+      rw [k3 he, (k4 he).1, (k4 he).2] at this
+      exact this
   · rintro ⟨⟨n, hn, hc⟩, hw⟩
     refine ⟨n, hn, ?_⟩
     have hnr := hdoy n hn
@@ -187,12 +190,10 @@ theorem mem_yly_yd_date (cand : List Nat) (doy : List Int) (wdMask : Nat) (x : I
     have hyd' : (if n < 0 then n + 366 + (leapN x.y : Int) else n) = ydayOf x := by
       split <;> omega
     rw [hyd']
-    obtain ⟨k1, k2, k3⟩ := key (ydayOf x) hyd.1 hyd.2
-    rw [if_neg (by
-      rintro ⟨c1, c2⟩
-      rcases hw with hw | hw
-      · exact c1 hw
-      · rw [k3 rfl, hw] at c2; exact absurd c2 (by decide)), if_neg (by omega), if_neg k1]
+    obtain ⟨k1, k2, k3, k4⟩ := key (ydayOf x) hyd.1 hyd.2
+    rw [if_neg (by omega), if_neg k1, if_neg (by
+      rw [k3 rfl, (k4 rfl).1, (k4 rfl).2]
+      exact (dlimB_neg _ _ _ _ _ _ _).2 hw)]
     rw [k2.2 rfl]
 
 end Echse.Lemmas.RrCandRfc
